@@ -30,7 +30,31 @@
    set of existing objects and every history of watch events.  flow_wf asks that the
    includeSnapshotsFrom list is sorted without duplicates (a restriction of the theorem,
    not of the model), that jq answers are printed canonically and that a v0 hook keeps
-   full objects (F15). *)
+   full objects (F15).
+
+   Third part (C09_hook_...): combined arrays of a hook with SEVERAL bindings — kubernetes
+   bindings (each with its own informer cache) and schedule / validating / mutating /
+   conversion bindings whose names need not differ from the kubernetes bindings' names.
+   Model C09_Model.run_hook: the controllers' HandleEvent for every binding type, then
+   HookController.UpdateSnapshots over the WHOLE array (getIncludeSnapshotsFrom by binding type
+   and name, SnapshotsFor, the per-call cache), then render_list.  Spec C09_Spec.P_hook: every
+   item is the documented context of its own binding = (type, name).  Full statement
+
+     Definition C09_hook_full_statement :=
+       forall hc, hook_wf hc = true -> P_hook hc (Some (run_hook hc)) = true.
+
+   is false on F8 and, in addition, (a) when two bindings of ONE type share a name and include
+   different snapshots (C09_hook_same_type_name_refuted: getIncludeSnapshotsFrom finds the first
+   binding of that name for both) and (b) when a validating and a mutating binding (or two
+   mutating ones) share a name (C09_hook_admission_same_name_refuted: AdmissionLinks is keyed by
+   the webhook id, which is derived from the name alone, so the request of one is rendered as
+   the other) — both reproduced on the real code, reported, not yet recorded findings; the
+   correspondence does not generate such hooks.  C09_hook_contract_partial proves it outside
+   the three triggers
+   for every hook, every set of existing objects, every sequence of events and every order of
+   the contexts in the array; includeSnapshotsFrom lists need not be sorted here.  hook_wf asks
+   what the config loader guarantees (the other bindings are of the four kinds, included names
+   are names of kubernetes bindings) and that jq answers are printed canonically. *)
 From Verif Require Import Common Json C09_Model C09_Spec C09_Proofs.
 
 Definition C09_full_statement : Prop :=
@@ -182,4 +206,69 @@ Proof.
   destruct Wit.example_flow_ok as [H1 [H2 H3]]. destruct Wit.leaking_file_rejected as [H4 _].
   split; [exact H1|]. split; [exact H2|]. split; [|exact H4].
   apply (f_equal (@length _)) in H3. now rewrite map_length in H3.
+Qed.
+
+(* ---------------- hooks with several bindings: combined arrays (hook cases) ---------------- *)
+
+Definition C09_hook_full_statement : Prop :=
+  forall hc, hook_wf hc = true -> P_hook hc (Some (run_hook hc)) = true.
+
+(* every item of every combined array conforms as the context of ITS OWN binding (type, name):
+   `snapshots` present exactly when that binding includes snapshots, one array per name it
+   includes, every element rendered with the included binding's jqFilter /
+   keepFullObjectsInMemory; Schedule / Validating / Mutating / Conversion / Group /
+   Synchronization / Event items with their documented fields — whatever other contexts
+   precede it in the array and whatever the other bindings of the hook are called *)
+Theorem C09_hook_contract_partial : forall hc,
+  hook_wf hc = true -> T_hook hc = false -> T_same_type_name hc = false ->
+  T_admission_same_name hc = false ->
+  P_hook hc (Some (run_hook hc)) = true.
+Proof. exact hook_contract_partial. Qed.
+Print Assumptions C09_hook_contract_partial.
+
+(* two schedule bindings of one name: the second one's context gets the first one's snapshots *)
+Theorem C09_hook_same_type_name_refuted :
+  exists hc, hook_wf hc = true /\ T_hook hc = false /\ T_same_type_name hc = true
+             /\ P_hook hc (Some (run_hook hc)) = false.
+Proof. exists WitHook.witness_same_type_name. exact WitHook.same_type_name_refuted. Qed.
+Print Assumptions C09_hook_same_type_name_refuted.
+
+(* a validating and a mutating binding of one name: the validating request is rendered as Mutating *)
+Theorem C09_hook_admission_same_name_refuted :
+  exists hc, hook_wf hc = true /\ T_hook hc = false /\ T_same_type_name hc = false
+             /\ T_admission_same_name hc = true
+             /\ P_hook hc (Some (run_hook hc)) = false.
+Proof. exists WitHook.witness_admission_same_name. exact WitHook.admission_same_name_refuted. Qed.
+Print Assumptions C09_hook_admission_same_name_refuted.
+
+(* UpdateSnapshots treats every context of the array on its own: whatever getIncludeSnapshotsFrom
+   [inc] and SnapshotsFor [sf] answer, and whatever contexts come before it, a context gets the
+   snapshots of the names resolved for ITS binding type and name; the per-call cache is not
+   observable *)
+Theorem C09_update_snapshots_per_context : forall inc sf xs,
+  update_all inc sf [] xs = map (update_pure inc sf) xs.
+Proof. intros inc sf xs. apply update_all_pure, sc_ok_nil. Qed.
+Print Assumptions C09_update_snapshots_per_context.
+
+(* the rendered `snapshots` object depends on the includeSnapshotsFrom list only as a set of names *)
+Theorem C09_snapshots_names_as_set : forall (f : bytes -> list item) l,
+  snapshots_json (map (fun n => (n, f n)) l) = snapshots_json (map (fun n => (n, f n)) (canon_names l)).
+Proof. exact snapshots_json_canon. Qed.
+Print Assumptions C09_snapshots_names_as_set.
+
+(* non-vacuity: a kubernetes binding "pods" that includes nothing and a schedule binding "pods"
+   that includes the snapshot of "cm" meet the hypotheses; in the array [Event pods, Schedule
+   pods] the Schedule item carries the snapshot of "cm" (one element, no full object, its
+   filterResult); the predicate rejects the same array when the Schedule item carries the
+   include list of its kubernetes namesake *)
+Example C09_hook_hyp_met :
+  hook_wf WitHook.example_hook = true /\ T_hook WitHook.example_hook = false
+  /\ T_same_type_name WitHook.example_hook = false
+  /\ T_admission_same_name WitHook.example_hook = false
+  /\ length (ho_items (run_hook WitHook.example_hook)) = 2%nat
+  /\ P_hook WitHook.example_hook (Some WitHook.confused_obs) = false.
+Proof.
+  destruct WitHook.example_hook_ok as [H1 [H2 [H3 [H3' H4]]]].
+  split; [exact H1|]. split; [exact H2|]. split; [exact H3|]. split; [exact H3'|]. split; [now rewrite H4|].
+  exact WitHook.confused_obs_rejected.
 Qed.
